@@ -212,7 +212,10 @@ func (o *OracleC09) AtEnd(s *Sim) {
 				// (a restarted validator that only got its own earlier (pre)commit back, holds no
 				// proposal and ignores the recovery messages that carry it - observation O7 - can
 				// neither commit nor supply its preparation to the others, and does not count)
-				if m.d.ViewNumber == maxView && (!isLocked || (lv == maxView && m.d.RequestSentOrReceived())) {
+				// Only honest validators are counted on: one that restarted with empty state is
+				// within the fault budget, and what it sends after the restart (a second vote in
+				// another view, for instance) may be of no use to the others.
+				if m.kind == FHonest && m.d.ViewNumber == maxView && (!isLocked || (lv == maxView && m.d.RequestSentOrReceived())) {
 					atTop++
 					if m.d.IsPrimary() {
 						primAtTop = true
